@@ -188,6 +188,9 @@ impl BlteBuilder {
             super::error::BlteError::CompressionError("No encryption config set".to_string())
         })?;
 
+        // The chunk table records the size of the content the chunk decodes
+        // to, not the size of the encrypted inner payload.
+        let content_size = data.len();
         let inner = self.build_inner_payload(data)?;
 
         // Encrypt the payload (mode byte + compressed/raw data)
@@ -197,7 +200,7 @@ impl BlteBuilder {
         Ok(ChunkData::from_compressed(
             CompressionMode::Encrypted,
             encrypted_data,
-            Some(inner.len()),
+            Some(content_size),
         ))
     }
 
@@ -209,6 +212,9 @@ impl BlteBuilder {
         key: [u8; 16],
         block_index: usize,
     ) -> BlteResult<ChunkData> {
+        // The chunk table records the size of the content the chunk decodes
+        // to, not the size of the encrypted inner payload.
+        let content_size = data.len();
         let inner = self.build_inner_payload(data)?;
 
         // Encrypt the payload (mode byte + compressed/raw data)
@@ -217,7 +223,7 @@ impl BlteBuilder {
         Ok(ChunkData::from_compressed(
             CompressionMode::Encrypted,
             encrypted_data,
-            Some(inner.len()),
+            Some(content_size),
         ))
     }
 
